@@ -79,7 +79,7 @@ pub struct Quirks {
     pub jalr_links_ra: bool,
     /// JALR rd, rs (rd != $ra) jumps to the value of rd
     pub jalr_target_from_rd: bool,
-    /// BLTZAL/BGEZAL evaluate their condition after the delay slot
+    /// a conditional branch evaluates its condition after the delay slot (seen at BLTZAL/BGEZAL)
     pub al_cond_after_slot: bool,
 }
 
@@ -624,8 +624,8 @@ pub fn exec(st: &mut MipsState, word: u32, slot: Option<u32>, q: &Quirks) -> Res
     if q.target_after_slot && matches!(d.k, Jr | Jalr) {
         target = if d.k == Jalr && q.jalr_target_from_rd && d.rd != 31 && d.rd != 0 { st.get(d.rd) } else { st.get(d.rs) };
     }
-    if q.al_cond_after_slot && matches!(d.k, Bltzal | Bgezal) {
-        taken = cond(st.get(d.rs), 0);
+    if q.al_cond_after_slot && !matches!(d.k, J | Jal | Jr | Jalr) {
+        taken = cond(st.get(d.rs), st.get(d.rt));
     }
     Ok(Outcome::Next(if taken { target } else { pc.wrapping_add(8) }))
 }
@@ -644,7 +644,7 @@ fn enc_r(rs: u32, rt: u32, rd: u32, sa: u32, funct: u32) -> u32 {
 pub fn self_check() -> Result<u64, String> {
     let mut n = 0u64;
     let q = Quirks::default();
-    let mut run = |word: u32, slot: Option<u32>, be: bool, setup: &dyn Fn(&mut MipsState)| -> (MipsState, Result<Outcome, Refusal>) {
+    let run = |word: u32, slot: Option<u32>, be: bool, setup: &dyn Fn(&mut MipsState)| -> (MipsState, Result<Outcome, Refusal>) {
         let mut st = MipsState::new(be, 7);
         st.pc = 0x1000;
         setup(&mut st);
